@@ -127,6 +127,7 @@ class Runner:
         casefile = os.path.join(self.tmp, 'case-%d-%d-%d' % (os.getpid(), threading.get_ident(), lo))
         ctx = {'exe_name': label, 'variant': variant, 'args': base_args, 'seed': self.seed, 'label': label, 'env': env or {}}
         crashes = 0
+        hangs = 0
         cur = lo
         while cur < hi:
             open(casefile, 'w').write('%-20d\n' % -1)
@@ -158,7 +159,12 @@ class Runner:
                 break
             if rc == 79:
                 pass   # deadlock/livelock already reported through a VIOL line by the harness
+            elif rc == 77 and hangs >= 3:
+                with res.lock:
+                    res.inconclusive.append({'case': case, 'why': 'watchdog hit repeatedly in this shard; range %d..%d abandoned after 3 confirmed hangs' % (case, hi), 'harness': label})
+                break
             elif rc == 77:
+                hangs += 1
                 # CPU budget exceeded: re-run alone once before calling it a hang
                 rc2, out2, err2 = self._one(exe, base_args + ['--seed', str(self.seed), '--only', str(case)] + (['--thorough'] if self.thorough else []), env, casefile)
                 with res.lock:
